@@ -114,6 +114,7 @@ var fixedProgs = []string{
 	// bodies defined inside a loop are code blocks of their own: a bare break/continue in them has no loop (rejected today;
 	// if ever accepted, its jump must not be patched into the enclosing program)
 	"i=0; while i<2 { i=i+1; func f() { break }; f() }", "i=0; while i<1 { i=i+1; func g() { if 1 { continue } }; g() }", "i=0; while i<1 { i=i+1; &a = `{break}`; a }", "while 0 { &a = `{% if 1 { continue } %}` }",
+	"^sta=x?2d:3", "^sta=0 ? 2d : 3", "^sta=1?2d:3 b=2", "^sta=x?3d,1?4d", "^sta=[2d,3] b=1", "^sta=(x?2d:3)", "^st&a=x?2d:3", "^sta=x?1&2:3", "^sta=x?2d6kh:3", "^sta=2d?1:2",
 	"^st力量+1d6", "^st&手枪=1d6", "^st力量-1d4+2", "^st'力量 2'=3", "^st力量*2:60", "null ?? 1", "-1", "+1", "[1..3]", "{'a':1,}", "this.x = 1", "&a.b = 2", "x.y.z", "f(1)(2)", "a = b = 3", "x = y[0] = 1", "dct.k = dct['j'] = []",
 }
 
